@@ -242,7 +242,10 @@ class CheckpointEmit(KafkaBase):
             part = VElem(z3.Const('part', sym.Elem))
             selfv = st.new_obj('FromKafkaBatched', {'loop': VRef(z3.Const('loop', sym.Obj), 'IOLoop'),
                                                    'current_value': NONE, 'current_metadata': NONE})
-            outer = Frame(self.qual, {'self': selfv, 'ck': VBuiltin('ck'), 'commit': VCallable('commit_fn')})
+            # the enclosing scope: by the time a completion callback runs, the loop variable `part` of poll_kafka's
+            # `for part in out:` names whichever batch was handed out LAST, in general not this one
+            other = VElem(z3.Const('part_handed_out_last', sym.Elem))
+            outer = Frame(self.qual, {'self': selfv, 'ck': VBuiltin('ck'), 'commit': VCallable('commit_fn'), 'part': other})
             f = VFunc(self.qual + '.<locals>.checkpoint_emit', fn)
             f.closure = outer
             self.finish(I, {'_part': part, 'self': selfv})
